@@ -467,6 +467,12 @@ func (env *specEnv) binary(n *EBinary) Val {
 		t = tInt
 		a, b = env.typed(a, tInt), env.typed(b, tInt)
 	}
+	if op == token.ADD && isStringType(t) {
+		// string concatenation, as in code
+		f := e.uf("str_cat", []string{"Int", "Int"}, "Int")
+		e.catAxioms()
+		return Val{T: t, L: []string{"(" + f + " " + a.L[0] + " " + b.L[0] + ")"}}
+	}
 	r, _ := e.binop(op, a.L[0], b.L[0], t, b.T, false)
 	rt := t
 	if opResultSort(op) == "Bool" {
